@@ -742,3 +742,165 @@ Proof.
   { intros cf pr. unfold run_prog. rewrite <- (compile_outcome p 0). now destruct (compile 0 p). }
   rewrite !R. auto using compile_outcome.
 Qed.
+
+(* ====================================================================================== *)
+(* Examples and refutations                                                               *)
+(* ====================================================================================== *)
+Module CtxRestoreExamples.
+Import CtxFrameExamples.
+
+(* context 1 (inside action2.context()) has just created action 3 *)
+Definition ex_s3 : state := api ex_cfg 1 ex_s (OStart 3 false ex_ty [] None).
+
+(* a block that logs, lets another context leave its own action, and even leaves a context()
+   block open: it does not restore cur _ 1 itself, but never writes action 3's token *)
+Definition ex_mid : list (nat * op) :=
+  [(1, OLog ex_ty [] None); (0, OExit 1 (Some ex_e)); (1, OCtxEnter 2); (1, OProbe); (1, OFinish 3 None)].
+
+Example enter_exit_restore_example :
+  (exists a, alookup 3 (heap ex_s3) = Some a) /\
+  tokof (run ex_cfg ex_mid (api ex_cfg 1 ex_s3 (OEnter 3))) 3 = tokof (api ex_cfg 1 ex_s3 (OEnter 3)) 3 /\
+  cur ex_s3 1 = Some 2 /\
+  cur (run ex_cfg ex_mid (api ex_cfg 1 ex_s3 (OEnter 3))) 1 = Some 2 /\
+  cur (api ex_cfg 1 ex_s3 (OEnter 3)) 1 = Some 3 /\
+  cur (api ex_cfg 1 (run ex_cfg ex_mid (api ex_cfg 1 ex_s3 (OEnter 3))) (OExit 3 (Some ex_e))) 1 = Some 2.
+Proof. vm_compute. repeat split; eauto. Qed.
+
+Example ctxenter_ctxexit_restore_example :
+  let mid := [(1, OLog ex_ty [] None); (1, OStart 4 false ex_ty [] None); (1, OEnter 4); (0, OExit 1 None)] in
+  tstack (run ex_cfg mid (api ex_cfg 1 ex_s3 (OCtxEnter 3))) 1 = tstack (api ex_cfg 1 ex_s3 (OCtxEnter 3)) 1 /\
+  cur (run ex_cfg mid (api ex_cfg 1 ex_s3 (OCtxEnter 3))) 1 = Some 4 /\
+  cur (api ex_cfg 1 (run ex_cfg mid (api ex_cfg 1 ex_s3 (OCtxEnter 3))) OCtxExit) 1 = cur ex_s3 1 /\
+  tstack ex_s3 1 = [None].
+Proof. vm_compute. auto. Qed.
+
+(* a program using every statement form: three block styles, exceptions caught and escaping,
+   re-entering context() of the enclosing action twice, finishing it early, a hand-off to
+   thread 3 and an asyncio task 4, each with their own with-blocks *)
+Definition ex_prog : list stmt :=
+  [SAct 11 WithBlock false ex_ty [] None []
+     [SMsg ex_ty [] None;
+      STry [SAct 12 CtxFinish false ex_ty [] None [] [SActLog 11 ex_ty []; SRaise ex_e]];
+      SAct 13 RunFinish true ex_ty [] None []
+        [SReenter 11 [SMsg ex_ty [] None; SReenter 11 []]; SFinishAgain 11 None; STraceback ex_e];
+      SHandoff 11 0 14 3 [SAct 15 WithBlock false ex_ty [] None [] [SRaise ex_e]];
+      SSpawn 4 [SMsg ex_ty [] None; SAct 16 WithBlock false ex_ty [] None [] []];
+      SAct 17 WithBlock false ex_ty [] None [] [SRaise ex_e];
+      SMsg ex_ty [] None];
+   SMsg ex_ty [] None].
+
+Example wf_example : wf_prog 0 ex_prog.
+Proof. vm_compute. reflexivity. Qed.
+
+Example C04_restore_example :
+  cur ex_s 0 = Some 1 /\
+  cur (run ex_cfg (fst (compile 0 ex_prog)) ex_s) 0 = cur ex_s 0 /\
+  tstack (run ex_cfg (fst (compile 0 ex_prog)) ex_s) 0 = tstack ex_s 0 /\
+  length (fst (compile 0 ex_prog)) = 72 /\
+  (* in between it was not constant *)
+  map snd (filter (fun p => Nat.eqb (fst p) 0) (probes (run ex_cfg (fst (compile 0 ex_prog)) ex_s))) =
+    [Some 11; Some 11; Some 12; Some 12; Some 12; Some 11; Some 11; Some 11; Some 13; Some 11;
+     Some 11; Some 11; Some 11; Some 13; Some 13; Some 13; Some 11; Some 11; Some 11; Some 11;
+     Some 17; Some 17; Some 11; Some 1].
+Proof.
+  split; [reflexivity|]. split; [apply C04_restore, wf_example|].
+  split; [apply C04_restore_tokens, wf_example|]. vm_compute. auto.
+Qed.
+
+(* wf_prog clause 1 is needed: `with a:` entered again inside its own block overwrites
+   a._parent_token, and the outer exit "restores" to None instead of action 1 *)
+Example C04_restore_rewith_refuted :
+  exists cfg p c s, cur (run cfg (fst (compile c p)) s) c <> cur s c.
+Proof.
+  exists ex_cfg, [SAct 11 WithBlock true ex_ty [] None [] [SAct 11 WithBlock true ex_ty [] None [] []]], 0, ex_s.
+  vm_compute. discriminate.
+Qed.
+
+(* ... also when the second creation is a continue_task in another thread *)
+Example C04_restore_rehandle_refuted :
+  exists cfg p c s, cur (run cfg (fst (compile c p)) s) c <> cur s c.
+Proof.
+  exists ex_cfg, [SAct 11 WithBlock true ex_ty [] None [] [SHandoff 11 0 11 3 []]], 0, ex_s.
+  vm_compute. discriminate.
+Qed.
+
+(* wf_prog clause 2 is needed: a thread that creates an "asyncio task" named like the running
+   context overwrites that context's current action *)
+Example C04_restore_spawn_refuted :
+  exists cfg p c s, cur (run cfg (fst (compile c p)) s) c <> cur s c.
+Proof.
+  exists ex_cfg, [SHandoff 1 0 14 3 [SSpawn 0 []]], 0, ex_s.
+  vm_compute. discriminate.
+Qed.
+
+Example C04_probe_after_stmt_example :
+  let st := SAct 12 CtxFinish false ex_ty [] None [] [SActLog 1 ex_ty []; SRaise ex_e] in
+  wf_prog 0 [st; SMsg ex_ty [] None] /\
+  probes (run ex_cfg (fst (compile_stmt 0 st) ++ probe 0) ex_s) =
+    [(0, Some 12); (0, Some 12); (0, Some 12); (0, Some 1); (0, Some 1)].
+Proof. vm_compute. auto. Qed.
+
+Example C04_inside_example :
+  parent_live ex_s 0 /\
+  exists rest, probes (run ex_cfg (fst (compile 0 ex_prog)) ex_s) = probes ex_s ++ (0, Some 11) :: rest.
+Proof.
+  split; [unfold parent_live; vm_compute; discriminate|].
+  vm_compute. eexists. reflexivity.
+Qed.
+
+(* the hypothesis of C04_inside for `with start_action(...)` is needed in the model: if the
+   current action is a handle of nothing, start_action is a no-op and so is entering it *)
+Example C04_inside_dangling_refuted :
+  exists cfg c s h,
+    forall rest, probes (run cfg (fst (compile c [SAct h WithBlock false ex_ty [] None [] []])) s)
+                 <> probes s ++ (c, Some h) :: rest.
+Proof.
+  exists ex_cfg, 0, (api ex_cfg 0 init_state (OCtxEnter 99)), 11. intros rest. vm_compute. discriminate.
+Qed.
+
+(* C03: finishing action 1 (current in context 0, a failing destination, a raising extractor) *)
+Example finish_example :
+  (exists a, alookup 1 (heap ex_s) = Some a /\ a_finished a = false) /\
+  (exists a', alookup 1 (heap (finish ex_cfg 0 ex_s 1 (Some ex_e))) = Some a' /\ a_finished a' = true) /\
+  length (trace_of ex_s 1) = 4 /\
+  length (trace_of (finish ex_cfg 0 ex_s 1 (Some ex_e)) 1) = 8 /\
+  length (trace_of (finish ex_cfg 1 (finish ex_cfg 0 ex_s 1 (Some ex_e)) 1 None) 1) = 8.
+Proof. vm_compute. repeat split; eauto. Qed.
+
+(* an extractor for Exception returning a field; the exception's str() raises *)
+Definition ex_cfg2 : config :=
+  mk_config [(8%positive, [8%positive; 2%positive; 1%positive])]
+            [(1%positive, XFields [(40%positive, VInt 1)]); (2%positive, XFields [(41%positive, VInt 2)])].
+Definition ex_e2 : exn := mkExn 2 8%positive 30%positive true.
+
+Example C03_status_truthful_example :
+  exists a, alookup 1 (heap ex_s) = Some a /\
+    extracted ex_cfg2 (Some ex_e2) = [(41%positive, VInt 2)] /\
+    finish_message a [3%positive] (Some ex_e2) (extracted ex_cfg2 (Some ex_e2)) =
+      [(K_uuid, VUuid 0); (K_level, VLevel [3%positive]); (K_ts, VTime); (K_atype, ex_ty);
+       (K_status, VStatus Failed); (K_exception, VClassName 8%positive); (K_reason, VSafeFail);
+       (41%positive, VInt 2)] /\
+    fget K_status (finish_message a [3%positive] None []) = Some (VStatus Succeeded).
+Proof. vm_compute. eexists. repeat split. Qed.
+
+Example outcome_example :
+  outcome ex_prog = Some ex_e /\ snd (compile 0 ex_prog) = Some ex_e /\
+  outcome [STry ex_prog; SHandoff 1 0 14 3 [SRaise ex_e]; SSpawn 4 [SRaise ex_e]] = None.
+Proof. vm_compute. auto. Qed.
+End CtxRestoreExamples.
+
+Print Assumptions enter_exit_restore.
+Print Assumptions ctxenter_ctxexit_restore.
+Print Assumptions C04_restore.
+Print Assumptions C04_restore_tokens.
+Print Assumptions C04_probe_after_stmt.
+Print Assumptions C04_inside.
+Print Assumptions finish_unfold.
+Print Assumptions finish_unfold_extracted.
+Print Assumptions finish_marks_finished.
+Print Assumptions C03_finish_twice.
+Print Assumptions C03_status_truthful.
+Print Assumptions C03_other_fields.
+Print Assumptions C03_same_exception.
+Print Assumptions compile_outcome.
+Print Assumptions C03_outcome_independent.
